@@ -1,17 +1,17 @@
-"""Claimed checks and the reasons for the properties not (yet) claimed."""
-HOOK_COMMITS = []
+"""Claimed checks = every tools/props/cNN.py that defines MANIFEST; the rest is listed as not claimed."""
+import importlib
+import sys
+from pathlib import Path
 
-CHECKS = [
-    {"property_id": "C17",
-     "technique": "Lean 4 theorems (bv_decide, all 2^64 displacements per format) over a hand model of codewriter.cpp + regenerated format list + C++/Lean correspondence",
-     "text": "For each of the OffsetFormats the sources construct (list regenerated from /repo on every run and proved to be a subset of the "
-             "proved formats) Lean proves for every 64-bit displacement: accepted => the patched word decodes (independent spec) to exactly that "
-             "displacement and no bit outside the field changes; refused => no field content designates it. The model is tied to "
-             "CodeWriterUtils::encode_offset32/64 and write_offset by running both on boundary, random and bulk-exhaustive inputs; the Lean "
-             "monitor (the theorem's predicate) judges every answer of the real code.",
-     "note": "Trusted: Lean kernel + bv_decide certificate axioms; Spec/Offset.lean as the meaning of a displacement field; gen_formats.py; "
-             "the harness/driver diff. Thumb/A32 formats are modelled, not proved (no compiled backend uses them)."},
-]
+sys.path.insert(0, str(Path(__file__).resolve().parent))
+HOOK_COMMITS = []
+CHECKS = []
+for f in sorted((Path(__file__).resolve().parent / "props").glob("c[0-9][0-9].py")):
+    mod = importlib.import_module("props." + f.stem)
+    if getattr(mod, "MANIFEST", None):
+        e = dict(mod.MANIFEST)
+        e["property_id"] = f.stem.upper()
+        CHECKS.append(e)
 
 _NOT_BUILT = "check not built yet in this round (design: DESIGN.md section 6); not claimed rather than claimed without machinery"
 NOT_APPLICABLE = [{"property_id": "C%02d" % i, "reason": _NOT_BUILT} for i in range(1, 21)]
